@@ -1,14 +1,16 @@
 #!/bin/sh
-# Build the framework offline from files on disk: Coq development (full .vo), extracted checker, Rust harness.
+# Build the framework offline from files on disk: Rust harness (against /repo, hooks on), the tables
+# generated from the compiled crate, the Coq development (full .vo), the extracted checker.
 set -e
 cd "$(dirname "$0")"
 export CARGO_NET_OFFLINE=true
-mkdir -p run replays evidence
-cd coq
+mkdir -p run replays evidence coq/theories/Generated
+cd harness
+cp /repo/Cargo.lock Cargo.lock
+timeout 1500 cargo build --offline
+./target/debug/verif-harness tables --dir ../coq/theories/Generated
+cd ../coq
 coq_makefile -f _CoqProject -o Makefile
 timeout 3000 make -j16
 ./build_checker.sh
-cd ../harness
-cp /repo/Cargo.lock Cargo.lock
-timeout 1500 cargo build --offline
 echo "setup ok"
